@@ -228,8 +228,9 @@ fn make_cell(family: &str, variant: u64, aux: u64) -> Cell {
         "zip" => {
             let (name, cfg, cap, stub) = zip_config(variant);
             let m = zipora::hash_map::ZiporaHashMap::<u64, u64, ModeBuild>::with_config_and_hasher(cfg, ModeBuild(aux)).expect("with_config_and_hasher");
-            // the library's own hash functions (modes >= N_HASHERS) have no mirror in Model.v
-            let model = if stub { Some(ModelDesc::Stub) } else if aux < N_HASHERS { cap.map(|c| ModelDesc::Std { mode: aux, cap: c }) } else { None };
+            // hashers 0..N_HASHERS are mirrored by `hasher` in Model.v; the library's own hash functions (modes >= N_HASHERS) are
+            // tabulated per case from the real function (kind 6)
+            let model = if stub { Some(ModelDesc::Stub) } else if aux < N_HASHERS { cap.map(|c| ModelDesc::Std { mode: aux, cap: c }) } else { cap.map(|c| ModelDesc::StdTab { cap: c }) };
             Cell { name: format!("ZiporaHashMap/{}", name), status: if stub { "finding" } else { "M+S" }, model, stub, map: Box::new(Zip::<U64, ModeBuild>(m, aux)) }
         }
         "zipstr" => {
@@ -893,7 +894,7 @@ pub fn run(args: &Args) {
             history(&mut cx, "zip", variant, mode, &ops, room && (variant + i) % 3 == 0, None);
         }
         // the library's own hash functions as the caller-supplied hasher
-        history(&mut cx, "zip", [0u64, 1, 9, 10][(i % 4) as usize], N_HASHERS + i % N_LIB_HASHERS, &ops, false, None);
+        history(&mut cx, "zip", [0u64, 1, 9, 10][(i % 4) as usize], N_HASHERS + i % N_LIB_HASHERS, &ops, room && i % 2 == 1, None);
         for variant in [0u64, 1, 3, 9] { history(&mut cx, "zipstr", variant, rng.below(N_HASHERS), &ops, room && (variant + i) % 4 == 1, None); }
         let n = *rng.pick(&[0u64, 1, 16, 17, 24, 31, 33, 64, 100]);
         history(&mut cx, "zipcap", n, 0, &ops, room, None);
